@@ -8,6 +8,7 @@
 // exercised; slots that hold no variable must stay exactly zero.
 #include <opm/material/densead/Evaluation.hpp>
 #include <opm/material/densead/DynamicEvaluation.hpp>
+#include <functional>
 #include <opm/material/densead/Math.hpp>
 #include "common/vh.hpp"
 #include <array>
@@ -252,11 +253,37 @@ static bool closeEnough(double a, double b) {
 struct Outcome { bool ok = true; std::string detail; std::vector<double> got; };
 
 template <class E, class MkVar, class MkConst>
-static Outcome runVariant(const Case& cs, int N, const std::vector<int>& slot, MkVar&& mkVar, MkConst&& mkConst) {
+static Outcome runVariant(const Case& cs, int N, const std::vector<int>& slot, MkVar&& mkVar, MkConst&& mkConst, int reuseSize = 0, std::function<E(int)> mkOther = nullptr) {
     Outcome oc;
     std::vector<E> ve;
     for (int i = 0; i < cs.nv; i++) ve.push_back(mkVar(cs.x[i], slot[i]));
     E r = evalE<E>(cs.prog, ve, mkConst);
+    if (reuseSize > 0) {
+        // The result is copy-assigned into an object that held an evaluation of another size before (an accumulator that is
+        // re-used): the dynamically sized variants switch between the small buffer and the heap here, in both directions.
+        // Every intermediate object is READ (not only copied on): a copy made from a broken object may well be sound again.
+        auto same = [](const E& a, const E& b) {
+            if (a.size() != b.size() || a.value() != b.value()) return false;
+            for (int k = 0; k < (int)a.size(); ++k) if (a.derivative(k) != b.derivative(k)) return false;
+            return true;
+        };
+        const E want = r;
+        E acc = mkOther(reuseSize);          // previous content: reuseSize derivatives
+        acc = r;                             // copy assignment from an lvalue
+        if (!same(acc, want)) { oc.ok = false; oc.detail += "after 'acc = r' (acc held " + std::to_string(reuseSize) + " derivatives before) acc differs from r; "; }
+        E back = mkOther(reuseSize);
+        const E wantBack = back;
+        E keep = acc;                        // copy construction
+        if (!same(keep, want)) { oc.ok = false; oc.detail += "copy constructed from the re-used object differs; "; }
+        acc = back;                          // to the other size and ...
+        if (!same(acc, wantBack)) { oc.ok = false; oc.detail += "after assigning the other size back the object differs; "; }
+        acc = keep;                          // ... back again
+        if (!same(acc, want)) { oc.ok = false; oc.detail += "after the second change of size the object differs; "; }
+        acc = std::move(keep);               // move assignment
+        if (!same(acc, want)) { oc.ok = false; oc.detail += "after move assignment the object differs; "; }
+        acc *= 1.0;                          // and it still computes
+        r = acc;
+    }
     std::ostringstream o; o.precision(17);
     if (!closeEnough(r.value(), cs.ref.v)) { oc.ok = false; o << "value " << r.value() << " vs reference " << cs.ref.v << "; "; }
     std::vector<double> expect(N, 0.0);
@@ -271,7 +298,7 @@ static Outcome runVariant(const Case& cs, int N, const std::vector<int>& slot, M
     }
     oc.got.push_back(r.value());
     for (int i = 0; i < cs.nv; i++) oc.got.push_back(r.derivative(slot[i]));
-    oc.detail = o.str();
+    oc.detail += o.str();
     return oc;
 }
 
@@ -289,12 +316,20 @@ static Outcome runDynamic(const Case& cs, int N, const std::vector<int>& slot) {
                          [N](double v, int pos) { return E::createVariable(N, v, pos); },
                          [N](double c) { return E::createConstant(N, c); });
 }
-static Outcome runDynamicSmallBuf(const Case& cs, int N, const std::vector<int>& slot) {
+static Outcome runDynamicSmallBuf(const Case& cs, int N, const std::vector<int>& slot, int reuseSize = 0) {
     // dynamic evaluation with a static small-buffer of 6 entries: both storage regimes are exercised
     using E = Opm::DenseAd::Evaluation<double, Opm::DenseAd::DynamicSize, 6u>;
     return runVariant<E>(cs, N, slot,
                          [N](double v, int pos) { return E::createVariable(N, v, pos); },
-                         [N](double c) { return E::createConstant(N, c); });
+                         [N](double c) { return E::createConstant(N, c); },
+                         reuseSize, [](int n) { return E::createVariable(n, 123.456, n - 1) * 7.0; });
+}
+static Outcome runDynamicReused(const Case& cs, int N, const std::vector<int>& slot, int reuseSize) {
+    using E = Opm::DenseAd::Evaluation<double, Opm::DenseAd::DynamicSize, 0u>;
+    return runVariant<E>(cs, N, slot,
+                         [N](double v, int pos) { return E::createVariable(N, v, pos); },
+                         [N](double c) { return E::createConstant(N, c); },
+                         reuseSize, [](int n) { return E::createVariable(n, 123.456, n - 1) * 7.0; });
 }
 
 template <int N>
@@ -328,6 +363,10 @@ int main(int argc, char** argv) {
             std::vector<int> slot(perm.begin(), perm.begin() + cs.nv);
             if (rpt == 0) outs.emplace_back("dynamic" + std::to_string(N), runDynamic(cs, N, slot));
             else outs.emplace_back("dynamic_sbo6_" + std::to_string(N), runDynamicSmallBuf(cs, N, slot));
+            // the same through an object that is re-used across sizes (1..16 derivatives before, N now)
+            const int other = 1 + (int)rng.below(16);
+            if (rpt == 0) outs.emplace_back("dynamic_reused_" + std::to_string(other) + "_to_" + std::to_string(N), runDynamicReused(cs, N, slot, other));
+            else outs.emplace_back("dynamic_sbo6_reused_" + std::to_string(other) + "_to_" + std::to_string(N), runDynamicSmallBuf(cs, N, slot, other));
         }
         bool anyDeriv = false;
         for (double d : cs.ref.d) if (d != 0.0) anyDeriv = true;
